@@ -38,7 +38,10 @@ func (r *fileReadReactor) init(b []byte, readAll bool, cb AsyncCallback) {
 }
 
 func (r *fileReadReactor) onRead(err error) {
-	r.file.ioc.Deregister(&r.file.slot)
+	if r.file.slot.Events == 0 {
+		// keep the object reachable while its other direction is still in flight
+		r.file.ioc.Deregister(&r.file.slot)
+	}
 	if err != nil {
 		r.cb(err, r.readSoFar)
 	} else {
@@ -64,7 +67,10 @@ func (r *fileWriteReactor) init(b []byte, writeAll bool, cb AsyncCallback) {
 }
 
 func (r *fileWriteReactor) onWrite(err error) {
-	r.file.ioc.Deregister(&r.file.slot)
+	if r.file.slot.Events == 0 {
+		// keep the object reachable while its other direction is still in flight
+		r.file.ioc.Deregister(&r.file.slot)
+	}
 	if err != nil {
 		r.cb(err, r.wroteSoFar)
 	} else {
